@@ -152,6 +152,15 @@ pub fn analyze(sc: &StreamScenario, out: &StreamOutcome) -> Analysis {
             if let (_, Some(p)) = ref_decode_packet(sc.mode, f) {
                 match ref_encode(sc.mode, &p) {
                     Ok(b) => {
+                        // the one thing about the encoder that the transport properties cannot
+                        // take on trust: what it hands to the transport is ONE frame, as long as
+                        // its own size byte says
+                        if !b.is_empty() && sc.mode.announced(b[0]) != b.len() {
+                            vio.push(v(
+                                "wire.frame_length_mismatch",
+                                format!("op {}: the encoder produced {} bytes for a packet whose size byte announces {} ({})", i, b.len(), sc.mode.announced(b[0]), crate::scenario::hex::enc(&b[..b.len().min(24)])),
+                            ));
+                        }
                         let _ = write_expect.insert(i, b);
                     },
                     Err(e) if !e.starts_with("panic") => {
